@@ -978,5 +978,6 @@ pub fn run(a: &Args) {
         }
     });
     let _: Value = json!(null);
+    crate::stream_api::report(&mut out, "C11");
     out.finish("case = one generated update set (1..3 replicas × 1..16 shards, each (replica, shard) a real ShardReplicaState with its own Lamport clock, clocks started at 0/3/17/100/1000, remote stamps far ahead, LWW writes / deletes / hash writes / hash deletes on 6 colliding keys, 1/8 with type changes, 1/10 with structured random values) laid out twice into checkpoint / covered segments / 0..5 segments (updates duplicated 1/5, shuffled 1/2) through the real Manifest API, plus a WAL (2/3) and a missing-segment variant (1/8); distinct by the op text of both layouts; non-trivial iff the recovered fold has more than one key or more than two persisted updates, or a WAL is replayed");
 }
